@@ -7,6 +7,7 @@ package processor
 import (
 	"sync"
 
+	charging_datatype "github.com/free5gc/chf/ccs_diameter/datatype"
 	"github.com/free5gc/chf/cdr/cdrFile"
 	"github.com/free5gc/chf/internal/abmf"
 	"github.com/free5gc/chf/internal/rating"
@@ -27,6 +28,7 @@ func verif_held(mu *sync.Mutex) bool { return true }
 var _ = chf_context.GetSelf
 var _ = cdrFile.SpecFileOK
 var _ = factory.ChfConfig
+var _ = charging_datatype.REQ_SUBTYPE_DEBIT
 var _, _ = abmf.GhostRequests, rating.GhostRequests
 
 // ---- CDR life cycle (C02, C11) ------------------------------------------------------------
@@ -107,9 +109,12 @@ func specSameQuota(ue *chf_context.ChfUe, old map[int32]int64) bool {
 //@   requires [C20] factory.ChfConfig != nil && factory.ChfConfig.Configuration != nil && factory.ChfConfig.Configuration.RfDiameter != nil && factory.ChfConfig.Configuration.RfDiameter.Tls != nil && factory.ChfConfig.Configuration.AbmfDiameter != nil && factory.ChfConfig.Configuration.AbmfDiameter.Tls != nil
 //@   requires [C20] chf_context.GetSelf().AbmfCfg != nil && chf_context.GetSelf().RatingCfg != nil
 //@   modifies mapof(specUe(chargingData).ReservedQuota), mapof(specUe(chargingData).UnitCost), mapof(specUe(chargingData).AcctRequestNum), mapof(specUe(chargingData).RatingType), field(specUe(chargingData), RatingGroups)
-//@   modifies global(&abmf.GhostRequests), global(&rating.GhostRequests)
+//@   modifies global(&abmf.GhostRequests), global(&rating.GhostRequests), mapof(abmf.GhostBalance), global(&abmf.GhostFailed), global(&rating.GhostFailed)
 //@   modifies elems(specUe(chargingData).RatingGroups[len(specUe(chargingData).RatingGroups):cap(specUe(chargingData).RatingGroups)])
 //@   assumed-frame
+//@   loop 0: unroll 1 when-inlined
+//@   loop 1: unroll 1 when-inlined
+//@   loop 2: unroll 1 when-inlined
 //@   loop 0: invariant 0 <= ITER && ITER <= len(chargingData.MultipleUnitUsage)
 //@   loop 1: invariant 0 <= ITER && ITER <= len(unitUsage.UsedUnitContainer)
 //@   loop 2: invariant 0 <= ITER && ITER <= len(chargingData.Triggers)
@@ -120,6 +125,8 @@ func specSameQuota(ue *chf_context.ChfUe, old map[int32]int64) bool {
 // subscriber lock is free again on every path (lock obligation).
 //@ func (*Processor).ChargingDataRelease [C09 C10 C11 C12]
 //@   entry
+//@   requires [C20] factory.ChfConfig != nil && factory.ChfConfig.Configuration != nil && factory.ChfConfig.Configuration.RfDiameter != nil && factory.ChfConfig.Configuration.RfDiameter.Tls != nil && factory.ChfConfig.Configuration.AbmfDiameter != nil && factory.ChfConfig.Configuration.AbmfDiameter.Tls != nil
+//@   requires [C20] chf_context.GetSelf().AbmfCfg != nil && chf_context.GetSelf().RatingCfg != nil
 //@   ensures result != nil ==> result.Status >= 400 && result.Status < 500
 //@   ensures old(specUe(chargingData).Cdr[chargingSessionId]) == nil ==> result != nil
 //@   ensures [C12] old(specUe(chargingData).Cdr[chargingSessionId]) == nil ==> abmf.GhostRequests == old(abmf.GhostRequests) && rating.GhostRequests == old(rating.GhostRequests) && len(specUe(chargingData).Records) == old(len(specUe(chargingData).Records))
@@ -133,6 +140,8 @@ func specSameQuota(ue *chf_context.ChfUe, old map[int32]int64) bool {
 // partial record that continues it, which then is what the reference designates).
 //@ func (*Processor).ChargingDataUpdate [C09 C10 C11 C12]
 //@   entry
+//@   requires [C20] factory.ChfConfig != nil && factory.ChfConfig.Configuration != nil && factory.ChfConfig.Configuration.RfDiameter != nil && factory.ChfConfig.Configuration.RfDiameter.Tls != nil && factory.ChfConfig.Configuration.AbmfDiameter != nil && factory.ChfConfig.Configuration.AbmfDiameter.Tls != nil
+//@   requires [C20] chf_context.GetSelf().AbmfCfg != nil && chf_context.GetSelf().RatingCfg != nil
 //@   ensures (result0 != nil) == (result1 == nil)
 //@   ensures result1 != nil ==> result1.Status >= 400 && result1.Status < 500
 //@   ensures [C12] result0 != nil ==> result0.InvocationSequenceNumber == chargingData.InvocationSequenceNumber && result0.InvocationTimeStamp != nil
@@ -175,3 +184,81 @@ var ghostNotifications int
 //@   assert "notifyUri := ue.NotifyUri": [C09] verif_held(&ue.CULock)
 //@   assert "p.SendChargingNotification(": [C12] notifyUri == old(specUeNotifyUri(ueId)) && len(notifyRequest.ReauthorizationDetails) == 1 && notifyRequest.ReauthorizationDetails[0].RatingGroup == rg
 //@   ensures ghostNotifications == old(ghostNotifications) || ghostNotifications == old(ghostNotifications)+1
+
+// ---- credit conservation and overdraft (C01, C06): bounded lemma --------------------------------
+
+func specRg(req models.ChfConvergedChargingChargingDataRequest) int32 {
+	return req.MultipleUnitUsage[0].RatingGroup
+}
+func specUsed(req models.ChfConvergedChargingChargingDataRequest) int64 {
+	return int64(req.MultipleUnitUsage[0].UsedUnitContainer[0].TotalVolume)
+}
+func specCost(req models.ChfConvergedChargingChargingDataRequest) int64 {
+	return int64(rating.GhostUnitCost[uint32(specRg(req))])
+}
+
+// specPrice: unit cost x reported volume as the 32-bit money AVPs carry it; equal to the mathematical
+// product under the range precondition of the lemma (verifLemmaMul32 below)
+func specPrice(req models.ChfConvergedChargingChargingDataRequest) int64 {
+	return int64(uint32(req.MultipleUnitUsage[0].UsedUnitContainer[0].TotalVolume) * rating.GhostUnitCost[uint32(specRg(req))])
+}
+
+// @ lemma verifLemmaMul32 [C99]
+// @   requires uint64(a)*uint64(b) < 1<<32
+// @   ensures result == uint64(a)*uint64(b)
+func verifLemmaMul32(a, b uint32) uint64 { return uint64(a * b) }
+
+// NOT CLAIMED: the two conservation clauses below are not decided by the installed solvers within the
+// time limits (the clauses are tagged X01, which no check selects); they document the intended contract.
+// One credit-control step of one request: for one rating group with one online used-unit container,
+// no trigger, and both peers answering, the subscriber's money is conserved -
+//   account balance + held reservation  ==  the same sum before  -  unit cost x reported volume
+// in reserve mode and in debit mode, with refund of the unused reservation at final debit.
+// Range limits of the protocol are preconditions: volumes are non-negative and money amounts fit the
+// 32-bit Diameter AVPs that carry them.
+// @ lemma verifLemmaReservationStep [C99]
+// @   bounded one multiple-unit-usage entry with one online-charging used-unit container and no trigger (loops unrolled); balances, reservation, tariff, volumes and rating mode unbounded within the 32-bit range of the Diameter money AVPs
+// @   inline-calls sessionChargingReservation
+// @   requires verif_held(&specUe(req).CULock)
+// @   requires factory.ChfConfig != nil && factory.ChfConfig.Configuration != nil && factory.ChfConfig.Configuration.RfDiameter != nil && factory.ChfConfig.Configuration.RfDiameter.Tls != nil && factory.ChfConfig.Configuration.AbmfDiameter != nil && factory.ChfConfig.Configuration.AbmfDiameter.Tls != nil
+// @   requires chf_context.GetSelf().AbmfCfg != nil && chf_context.GetSelf().RatingCfg != nil
+// @   requires len(req.MultipleUnitUsage) == 1 && len(req.MultipleUnitUsage[0].UsedUnitContainer) == 1 && len(req.Triggers) == 0
+// @   requires req.MultipleUnitUsage[0].UsedUnitContainer[0].QuotaManagementIndicator == models.QuotaManagementIndicator_ONLINE_CHARGING
+// @   requires specUe(req).RatingType[specRg(req)] == charging_datatype.REQ_SUBTYPE_RESERVE || specUe(req).RatingType[specRg(req)] == charging_datatype.REQ_SUBTYPE_DEBIT
+// @   requires specUsed(req) >= 0 && specUsed(req)*specCost(req) < 1<<32
+// @   requires req.MultipleUnitUsage[0].RequestedUnit == nil || (req.MultipleUnitUsage[0].RequestedUnit.TotalVolume >= 0 && int64(req.MultipleUnitUsage[0].RequestedUnit.TotalVolume)*specCost(req) < 1<<32)
+// @   requires chf_context.GhostKnown[req.SubscriberIdentifier]
+// @   requires abmf.GhostBalance != nil && rating.GhostUnitCost != nil && !abmf.GhostFailed && !rating.GhostFailed
+// @   requires abmf.GhostBalance[uint32(specRg(req))] >= 0 && abmf.GhostBalance[uint32(specRg(req))] < 1<<62 && specUe(req).ReservedQuota[specRg(req)] > -(1<<62) && specUe(req).ReservedQuota[specRg(req)] < 1<<62
+// @   show specUe(req).ReservedQuota[specRg(req)]
+// @   show abmf.GhostBalance[uint32(specRg(req))]
+// @   show old(specUe(req).ReservedQuota[specRg(req)])
+// @   show old(abmf.GhostBalance[uint32(specRg(req))])
+// @   show specUsed(req)
+// @   show abmf.GhostFailed
+// @   show rating.GhostFailed
+// @   show len(specUe(req).RatingGroups)
+// @   show old(len(specUe(req).RatingGroups))
+// @   show specUe(req).AcctRequestNum[specRg(req)] - old(specUe(req).AcctRequestNum[specRg(req)])
+// @   show specUe(req).RatingType[specRg(req)]
+// @   show abmf.GhostRequests - old(abmf.GhostRequests)
+// @   show rating.GhostRequests - old(rating.GhostRequests)
+// @   show specPrice(req)
+// @   show specUe(req).UnitCost[specRg(req)]
+// @   show specCost(req)
+// @   show old(specUe(req).RatingType[specRg(req)])
+// @   ensures [C99] !abmf.GhostFailed && !rating.GhostFailed && (old(specUe(req).RatingType[specRg(req)]) == 1 || old(specUe(req).RatingType[specRg(req)]) == 2) ==> specUe(req).AcctRequestNum[specRg(req)] == old(specUe(req).AcctRequestNum[specRg(req)])+1
+// @   ensures [C99] !abmf.GhostFailed && !rating.GhostFailed && old(specUe(req).RatingType[specRg(req)]) == charging_datatype.REQ_SUBTYPE_DEBIT ==> abmf.GhostBalance[uint32(specRg(req))]+specUe(req).ReservedQuota[specRg(req)] == old(abmf.GhostBalance[uint32(specRg(req))])+old(specUe(req).ReservedQuota[specRg(req)])-specPrice(req)
+// @   ensures [C99] !abmf.GhostFailed && !rating.GhostFailed && old(specUe(req).RatingType[specRg(req)]) != charging_datatype.REQ_SUBTYPE_DEBIT ==> abmf.GhostBalance[uint32(specRg(req))]+specUe(req).ReservedQuota[specRg(req)] == old(abmf.GhostBalance[uint32(specRg(req))])+old(specUe(req).ReservedQuota[specRg(req)])-specPrice(req)
+func verifLemmaReservationStep(req models.ChfConvergedChargingChargingDataRequest) ([]models.MultipleUnitInformation, bool) {
+	return sessionChargingReservation(req)
+}
+
+// The CHF decodes the tariff of a rating answer to the unit cost the rating server applied (C08, CHF
+// side): for an integer tariff (exponent 0) the decoded value is the stored unit cost.
+//@ func getUnitCost [C08 C01 C06]
+//@   requires ue != nil && ue.RatingClient != nil
+//@   requires [C20] factory.ChfConfig != nil && factory.ChfConfig.Configuration != nil && factory.ChfConfig.Configuration.RfDiameter != nil && factory.ChfConfig.Configuration.RfDiameter.Tls != nil
+//@   ensures sur != nil && !rating.GhostFailed ==> result == rating.GhostUnitCost[uint32(rg)]
+//@   show rating.GhostUnitCost[uint32(rg)]
+//@   modifies field(sur, ServiceRating), field(sur, DestinationRealm), field(sur, DestinationHost), global(&rating.GhostRequests), global(&rating.GhostFailed)
